@@ -189,13 +189,31 @@ pub struct Exec {
     pub parser_panics: Vec<(String, String, String)>,
     /// wall time of the main run (used by C15's proportional-time budget only; not part of any digest)
     pub wall_us: u64,
+    /// CPU time of the main run and of the alternative runs (C15 size scaling only; not part of any digest)
+    pub cpu_us: u64,
+    pub alt_cpu_us: Vec<u64>,
 }
 
 pub fn execute(case: &Case) -> Exec {
     match case.kind.as_str() {
         "multi" => {
             let out = case.multi.as_ref().map(crate::multi::run_multi);
-            Exec { h: History::default(), alts: vec![], multi: out, parser_panics: vec![], wall_us: 0 }
+            Exec { h: History::default(), alts: vec![], multi: out, parser_panics: vec![], wall_us: 0, cpu_us: 0, alt_cpu_us: vec![] }
+        }
+        "scaling" => {
+            // executed on this thread (64 MiB stack), so that its CPU time can be read
+            let t0 = crate::c15::thread_cpu_us();
+            let (h, _) = world::run_here(&case.scn, None);
+            let t1 = crate::c15::thread_cpu_us();
+            let mut alts = Vec::new();
+            let mut alt_cpu_us = Vec::new();
+            for a in &case.alts {
+                let s0 = crate::c15::thread_cpu_us();
+                let (ah, _) = world::run_here(&a.scn, None);
+                alt_cpu_us.push(crate::c15::thread_cpu_us() - s0);
+                alts.push(ah);
+            }
+            Exec { h, alts, multi: None, parser_panics: vec![], wall_us: 0, cpu_us: t1 - t0, alt_cpu_us }
         }
         _ => {
             let t = std::time::Instant::now();
@@ -204,7 +222,7 @@ pub fn execute(case: &Case) -> Exec {
             let alts = case.alts.iter().map(|a| world::run_cli(&a.scn)).collect();
             let parser_panics =
                 if case.parser_inputs.is_empty() { vec![] } else { crate::c15::direct_parsers(&case.parser_inputs) };
-            Exec { h, alts, multi: None, parser_panics, wall_us }
+            Exec { h, alts, multi: None, parser_panics, wall_us, cpu_us: 0, alt_cpu_us: vec![] }
         }
     }
 }
